@@ -741,7 +741,14 @@ class NetCDF4(FileHandler):
                     if len(dims) == 0 and var[:] is np.ma.masked:
                         ds[path + var_name] = dims, np.nan, dict(var.__dict__)
                     else:
-                        ds[path + var_name] = dims, var[:], dict(var.__dict__)
+                        values = var[:]
+                        # netCDF4 hands out masked arrays, which xarray turns
+                        # into floats. Keep the original data type (e.g. of
+                        # integer indices) if no value is masked at all:
+                        if isinstance(values, np.ma.MaskedArray) \
+                                and not np.ma.is_masked(values):
+                            values = values.data
+                        ds[path + var_name] = dims, values, dict(var.__dict__)
         except RuntimeError:
             raise KeyError(f"Could not load the variable {path + var_name}!")
 
